@@ -71,8 +71,8 @@ var (
 	c27Nasty      = []rune("ab \t\n=,é日-_.:Z9\\")
 	c27TagRunes   = []rune("roleabAZ09_-.:= é\t")
 	c27Addrs      = []string{"10.0.0.1", "192.168.1.20", "::1", "fe80::1", ""}
-	c27OutSizes   = []int{10, 0, 1, 100, 900, 1100, 8191, 8192, 8193, 9000, 20000}
-	c27RespLimits = []int{1024, 16384, 200, 9000}
+	c27OutSizes   = []int{9000, 10, 20000, 8193, 8192, 100, 0, 900, 1100, 8191, 1}
+	c27RespLimits = []int{16384, 1024, 9000, 200}
 )
 
 const c27OutAlphabet = "abcdefghijklmnopqrstuvwxyz0123456789"
@@ -132,7 +132,7 @@ func c27GenSpec(t *rapid.T, evKind int) string {
 
 func genC27(t *rapid.T) c27Case {
 	var c c27Case
-	c.EvKind = rapid.SampledFrom([]int{0, 5, 6, 1, 2, 3, 4, 6, 5}).Draw(t, "evkind")
+	c.EvKind = rapid.SampledFrom([]int{6, 0, 5, 6, 1, 2, 3, 4, 5}).Draw(t, "evkind")
 	c.SelfName = c27GenStr(t, "selfname")
 	c.SelfTags = c27GenTags(t, "selftags", 4)
 	ns := 1
@@ -147,7 +147,14 @@ func genC27(t *rapid.T) c27Case {
 		} else {
 			s.Out = rapid.SampledFrom([]int{0, 5, 300}).Draw(t, "out")
 		}
-		s.ErrFrom = rapid.IntRange(0, s.Out).Draw(t, "errfrom")
+		switch rapid.IntRange(0, 4).Draw(t, "split") {
+		case 0, 1:
+			s.ErrFrom = s.Out // everything on stdout
+		case 2, 3:
+			s.ErrFrom = 0 // everything on stderr
+		default:
+			s.ErrFrom = rapid.IntRange(0, s.Out).Draw(t, "errfrom")
+		}
 		c.Scripts = append(c.Scripts, s)
 	}
 	switch {
@@ -204,24 +211,33 @@ func genC27(t *rapid.T) c27Case {
 // (the environment, NUL separated) and <base>.<idx>.<n>.stdin, then print
 // <out> bytes of the output pattern (the first <errFrom> on stdout, the rest
 // on stderr) and exit with <exit>:
-//   - a POSIX shell script using env -0 / cat / head / tail (default: a few
-//     milliseconds per run), and
-//   - this test binary in helper mode (no external tools, but ~0.1-0.3 s per run
-//     because every package of the test binary initialises); used when the
+//   - an inline shell snippet (handlers are shell snippets) using cat, env -0,
+//     head and tail: three to five small processes per run; it contains no '='
+//     because a bare handler spec is split at the first '=';
+//   - this test binary in helper mode (no external tools, one process, but every
+//     package of the test binary initialises: 0.1-0.3 s per run); used when the
 //     shell tools are missing or with VERIF_C27_HELPER=binary.
 
 const c27PatternLen = 1 << 16
 
-const c27HelperSh = `#!/bin/sh
-base="$1"; idx="$2"; out="$3"; ef="$4"; ex="$5"; pat="$6"
-n=0
-while [ -e "$base.$idx.$n.env" ]; do n=$((n+1)); done
-cat > "$base.$idx.$n.stdin" || exit 98
-env -0 > "$base.$idx.$n.env" || exit 99
-head -c "$ef" "$pat"
-tail -c "+$((ef+1))" "$pat" | head -c "$((out-ef))" >&2
-exit "$ex"
-`
+func c27ShellScript(base string, idx int, sc c27Script, pattern string) string {
+	f := fmt.Sprintf("'%s.%d.'$1", base, idx)
+	var sb strings.Builder
+	// the counter lives in $1 (no assignment, hence no '=')
+	fmt.Fprintf(&sb, "set -- 0; while [ -e %s.env ]; do set -- $(($1+1)); done; ", f)
+	fmt.Fprintf(&sb, "cat > %s.stdin || exit 98; env -0 > %s.env || exit 99; ", f, f)
+	if sc.ErrFrom > 0 {
+		fmt.Fprintf(&sb, "head -c %d '%s'; ", sc.ErrFrom, pattern)
+	}
+	switch {
+	case sc.Out > sc.ErrFrom && sc.ErrFrom == 0:
+		fmt.Fprintf(&sb, "head -c %d '%s' >&2; ", sc.Out, pattern)
+	case sc.Out > sc.ErrFrom:
+		fmt.Fprintf(&sb, "tail -c +%d '%s' | head -c %d >&2; ", sc.ErrFrom+1, pattern, sc.Out-sc.ErrFrom)
+	}
+	fmt.Fprintf(&sb, "exit %d", sc.Exit)
+	return sb.String()
+}
 
 // args: dumpBase idx out errFrom exit [pattern]
 func c27Helper(args []string) {
@@ -259,7 +275,7 @@ func c27Helper(args []string) {
 // c27Setup is done once per test process.
 type c27SetupT struct {
 	dir     string
-	command string // shell words that start the helper, without arguments
+	exe     string
 	pattern string
 	kind    string
 	err     error
@@ -286,22 +302,18 @@ func c27GetSetup() *c27SetupT {
 		for i := range pat {
 			pat[i] = c27OutByte(i)
 		}
-		script := filepath.Join(s.dir, "helper.sh")
 		if s.err = os.WriteFile(s.pattern, pat, 0o644); s.err != nil {
-			return
-		}
-		if s.err = os.WriteFile(script, []byte(c27HelperSh), 0o755); s.err != nil {
 			return
 		}
 		if strings.ContainsAny(s.dir+exe, "'=") {
 			s.err = fmt.Errorf("unusable path")
 			return
 		}
-		s.kind, s.command = "binary", fmt.Sprintf("'%s' c27helper", exe)
+		s.kind, s.exe = "binary", exe
 		if os.Getenv("VERIF_C27_HELPER") != "binary" {
 			// probe the shell helper once
 			probe := filepath.Join(s.dir, "probe")
-			cmd := exec.Command("/bin/sh", "-c", fmt.Sprintf("sh '%s' '%s' 0 5 2 7 '%s'", script, probe, s.pattern))
+			cmd := exec.Command("/bin/sh", "-c", c27ShellScript(probe, 0, c27Script{Out: 5, ErrFrom: 2, Exit: 7}, s.pattern))
 			cmd.Env = append(os.Environ(), "C27_PROBE=a\nb")
 			cmd.Stdin = strings.NewReader("in")
 			var so, se bytes.Buffer
@@ -312,7 +324,7 @@ func c27GetSetup() *c27SetupT {
 			ee, isExit := err.(*exec.ExitError)
 			if isExit && ee.ExitCode() == 7 && so.String() == string(pat[:2]) && se.String() == string(pat[2:5]) &&
 				string(inb) == "in" && bytes.Contains(append([]byte{0}, envb...), []byte("\x00C27_PROBE=a\nb\x00")) {
-				s.kind, s.command = "sh", fmt.Sprintf("sh '%s'", script)
+				s.kind = "sh"
 			}
 		}
 	})
@@ -437,7 +449,14 @@ func bodyC27(c c27Case, x *vkit.Ctx) {
 			x.Inconclusive("malformed script in case")
 			return
 		}
-		cmd := fmt.Sprintf("%s '%s' %d %d %d %d '%s'", setup.command, base, i, s.Out, s.ErrFrom, s.Exit, setup.pattern)
+		cmd := fmt.Sprintf("'%s' c27helper '%s' %d %d %d %d", setup.exe, base, i, s.Out, s.ErrFrom, s.Exit)
+		if setup.kind == "sh" {
+			cmd = c27ShellScript(base, i, s, setup.pattern)
+		}
+		if strings.Contains(cmd, "=") {
+			x.Inconclusive("script text would contain '='")
+			return
+		}
 		full := cmd
 		if s.Spec != "" {
 			full = s.Spec + "=" + cmd
